@@ -213,14 +213,20 @@ class BaseTemplate:
         init = program[PROGRAM_NAME]
         functions = init(*builtins)
 
-        for name, function in functions.items():
-            setattr(self, "_" + name, function)
-
         # Entry points left over from a previously cooked body (macros
         # that the new body no longer defines) must not be served.  Only
         # what a previous call installed is removed - other attributes
-        # may well begin with ``_render``.
-        for name in self.__dict__.get('_v_entry_points', ()):
+        # may well begin with ``_render``.  The new names are on record
+        # before the first of them is installed, so that a call that is
+        # cut short (an asynchronous exception) leaves nothing behind
+        # that the next one does not know of.
+        previous = self.__dict__.get('_v_entry_points', ())
+        self._v_entry_points = tuple(set(previous).union(functions))
+
+        for name, function in functions.items():
+            setattr(self, "_" + name, function)
+
+        for name in previous:
             if name not in functions:
                 # (another thread cooking the same body may have removed
                 # it already)
